@@ -11,6 +11,23 @@ impl core::convert::From<SystemTimeError> for anyhow::Error {
     #[verifier::external_body]
     fn from(e: SystemTimeError) -> anyhow::Error { unimplemented!() }
 }
+/// protocol/vmess/header.rs RequestOption::{values, from_mask, get_mask} (iterator adapters, R9): option list <-> bit mask.  ASSUMED contracts.
+/// V2Fly VMess: option bits S=1 (chunk stream), R=2 (connection reuse), M=4 (chunk masking), P=8 (global padding), A=16 (authenticated length)
+spec fn opt_bit(o: RequestOption) -> u8 { match o { RequestOption::ChunkStream => 1, RequestOption::ConnectionReuse => 2, RequestOption::ChunkMasking => 4, RequestOption::GlobalPadding => 8, RequestOption::AuthenticatedLength => 16 } }
+//#C03
+proof fn lemma_opt_bits(o: RequestOption) ensures opt_bit(o) == o as u8 {}
+spec fn mask_of(s: Seq<RequestOption>) -> u8 decreases s.len() { if s.len() == 0 { 0u8 } else { mask_of(s.drop_last()) | opt_bit(s.last()) } }
+impl RequestOption {
+    #[verifier::external_body]
+    fn from_mask(mask: u8) -> (r: Vec<RequestOption>)
+        ensures forall|o: RequestOption| r@.contains(o) == (opt_bit(o) & mask != 0)
+    { unimplemented!() }
+    #[verifier::external_body]
+    fn get_mask(options: &[RequestOption]) -> (r: u8)
+        ensures r == mask_of(options@)
+    { unimplemented!() }
+}
+spec fn seg(s: Seq<u8>, a: int, n: int) -> Seq<u8> { s.subrange(a, a + n) }
 proof fn lemma_path3(p: Seq<&[u8]>, a: Seq<u8>, b: Seq<u8>, c: Seq<u8>)
     requires p.len() == 3, p[0]@ == a, p[1]@ == b, p[2]@ == c
     ensures path_view(p) == seq![a, b, c]
@@ -94,6 +111,173 @@ I("    if cursor.remaining() < length + encrypt__TAG_SIZE {\n", "    proof { lem
 I("    let length = u16::v_from_be_bytes(length_bytes.v_try_into().map_err(|_verif_ign0| verif_err())?) as usize;\n", "    let ghost lb = length_bytes@;\n    proof { let aid = old(src)@.subrange(0, 16); let nn = old(src)@.subrange(34, 42); let lenc = old(src)@.subrange(16, 34);\n        assert(aead_open(0, vh_key(key@, lbl_len_key(), aid, nn), vh_iv(key@, lbl_len_iv(), aid, nn), aid, lenc) == Some(lb));\n        axiom_open_unique(0, vh_key(key@, lbl_len_key(), aid, nn), vh_iv(key@, lbl_len_iv(), aid, nn), aid, lenc);\n        axiom_seal_len(0, vh_key(key@, lbl_len_key(), aid, nn), vh_iv(key@, lbl_len_iv(), aid, nn), aid, lb);\n        assert(lb.len() == 2); }\n", where="before")
 I("    let length = u16::v_from_be_bytes(length_bytes.v_try_into().map_err(|_verif_ign0| verif_err())?) as usize;\n", "    proof { lemma_be_val_bound(lb); lemma_pow256_vals(); }\n")
 I("    let header_bytes = Aes128Gcm::new_from_slice(&header_key)?\n", "    proof { assert(header_encrypted@ =~= old(src)@.subrange(42, 42 + length + 16)); }\n", where="before")
+
+I("impl From<OutboundIn> for BytesMut {\n", """impl vstd::std_specs::convert::FromSpecImpl<OutboundIn> for BytesMut {
+    open spec fn obeys_from_spec() -> bool { true }
+    open spec fn from_spec(v: OutboundIn) -> Self { match v { OutboundIn::Tcp(b) => b, OutboundIn::Udp((b, _)) => b } }
+}
+""", where="before")
+# ================================================================ server/vmess.rs
+I("impl ServerAeadCodec {\n    fn encode(\n", """    spec fn wf(&self) -> bool {
+        (self.decode_state matches vsrv__DecodeState::Ready(h, s, d) ==> d.wf())
+        && (self.encode_state matches vsrv__EncodeState::Ready(e) ==> e.wf())
+    }
+    spec fn keys_same(&self, o: &Self) -> bool { self.keys == o.keys }
+""", where="before"); E.pop()
+I("impl ServerAeadCodec {\n", """    spec fn wf(&self) -> bool {
+        (self.decode_state matches vsrv__DecodeState::Ready(h, s, d) ==> d.wf())
+        && (self.encode_state matches vsrv__EncodeState::Ready(e) ==> e.wf())
+    }
+""", nth=0)
+a = "        encoder: &mut AEADBodyCodec,\n    ) -> "
+I(a, "(r: ", nth=0)
+I(a + "anyhow::Result<()>", """)
+        requires old(encoder).wf(),
+        ensures final(encoder).wf(), final(encoder).same_static(old(encoder)), final(encoder).state == old(encoder).state, sess_same(old(session), final(session)),
+            //#C01 C02 C03
+            r is Ok ==> final(dst)@.len() >= old(dst)@.len() && final(dst)@.take(old(dst)@.len() as int) == old(dst)@,
+            //#C01 C03
+            (r is Ok && request_header.command is TCP) ==> vwire_rel(old(encoder).ecfg(old(session)), old(encoder).dynv(), item@, final(dst)@.skip(old(dst)@.len() as int)),
+            //#C02 C03
+            (r is Ok && request_header.command is UDP) ==> (final(dst)@ == old(dst)@ || vchunk_rel(old(encoder).ecfg(old(session)), old(encoder).dynv(), item@, final(dst)@.skip(old(dst)@.len() as int))),
+   """, nth=0)
+for k, (nm, first) in enumerate((("decode_header", "ConnectTcp"), ("decode_body", "RelayTcp"))):
+    a = "        decoder: &mut AEADBodyCodec,\n    ) -> "
+    I(a, "(r: ", nth=k)
+    item_tcp = "r matches Ok(Some(InboundIn::ConnectTcp(b, a))) && b@ == q.out && a == old(header).address" if first == "ConnectTcp" else "r matches Ok(Some(InboundIn::RelayTcp(b))) && b@ == q.out"
+    I(a + "anyhow::Result<Option<InboundIn>>", """)
+        requires old(decoder).wf(),
+        ensures final(decoder).wf(), final(decoder).same_static(old(decoder)), sess_same(old(session), final(session)), *final(header) == *old(header),
+            //#C04 C05 C01 C06 C07
+            // TCP: the plaintext of all complete chunks%s, or nothing yet; an authentication failure is an error
+            old(header).command is TCP ==> match vparse(old(decoder).dcfg(old(session)), old(decoder).abs(), old(decoder).dynv(), old(src)@) {
+                None => r is Err,
+                Some(q) => final(decoder).abs() == q.st && final(decoder).dynv() == q.d && final(src)@ == q.rest
+                    && (if q.out.len() == 0 { r matches Ok(None) } else { %s }),
+            },
+            //#C04 C05 C02 C06 C07
+            old(header).command is UDP ==> match vparse_pkt(old(decoder).dcfg(old(session)), old(decoder).abs(), old(decoder).dynv(), old(src)@) {
+                None => r is Err,
+                Some(q) => final(decoder).abs() == q.st && final(decoder).dynv() == q.d && final(src)@ == q.rest
+                    && match q.pkt { None => r matches Ok(None), Some(p) => r matches Ok(Some(InboundIn::RelayUdp(b, a))) && b@ == p && a == old(header).address },
+            },
+   """ % (" together with the target address" if first == "ConnectTcp" else "", item_tcp), nth=k)
+# server Encoder::encode -> encode_item
+a = "    fn encode_item(&mut self, item: OutboundIn, dst: &mut BytesMut) -> "
+I(a, "(r: ")
+I(a + "Result<(), anyhow::Error>", """)
+        requires old(self).wf(),
+        ensures final(self).wf(), final(self).keys == old(self).keys, final(self).connected == old(self).connected,
+            //#C06
+            // nothing is sent before a request was accepted
+            old(self).decode_state is Init ==> r is Err && final(dst)@ == old(dst)@,
+            //#C03 C05 C10
+            // the first reply starts with the response header sealed under keys derived from this session's response key / iv and echoes its response byte
+            (r is Ok && old(self).encode_state is Init) ==> (old(self).decode_state matches vsrv__DecodeState::Ready(h, s, d) && final(dst)@.len() >= old(dst)@.len() + 38
+                && seg(final(dst)@, old(dst)@.len() as int, 18) == aead_seal(0, vkdf(s.response_body_key@, seq![lbl_resp_len_key()]).take(16), vkdf(s.response_body_iv@, seq![lbl_resp_len_iv()]).take(12), Seq::empty(), be_bytes(4, 2))
+                && seg(final(dst)@, (old(dst)@.len() + 18) as int, 20) == aead_seal(0, vkdf(s.response_body_key@, seq![lbl_resp_key()]).take(16), vkdf(s.response_body_iv@, seq![lbl_resp_iv()]).take(12), Seq::empty(), seq![s.response_header, mask_of(h.option@), 0u8, 0u8])),
+   """)
+I("                    dst.extend_from_slice(\n                        &cipher\n", "                    let ghost d0 = dst@;\n", where="before")
+I("                    let payload_len_key = kdf__kdf16(&session.response_body_key, vec![kdf__SALT_AEAD_RESP_HEADER_PAYLOAD_KEY]);\n", "                    let ghost d1 = dst@;\n                    proof { assert(header@ =~= seq![session.response_header, option, 0u8, 0u8]); assert(d1.len() == d0.len() + 18); assert(seg(d1, d0.len() as int, 18) =~= d1.skip(d0.len() as int)); }\n", where="before")
+I("                    let mut encoder = AEADBodyCodec::new_encoder(request_header, session)?;\n", "                    let ghost d2 = dst@;\n                    proof { assert(d2.len() == d1.len() + 20); assert(seg(d2, d0.len() as int, 18) =~= d1.skip(d0.len() as int)); assert(seg(d2, (d0.len() + 18) as int, 20) =~= d2.skip(d1.len() as int)); }\n", where="before")
+I("                    self.encode_state = vsrv__EncodeState::Ready(Box::new(encoder));\n", "                    proof { if res is Ok { assert(dst@.take(d2.len() as int) == d2); assert(seg(dst@, d0.len() as int, 18) =~= seg(d2, d0.len() as int, 18)); assert(seg(dst@, (d0.len() + 18) as int, 20) =~= seg(d2, (d0.len() + 18) as int, 20)); } }\n", where="before")
+# server decode
+a = "    fn decode(&mut self, src: &mut BytesMut) -> "
+I(a, "(r: ", nth=0)
+I(a + "Result<Option<InboundIn>, anyhow::Error>", """)
+        requires old(self).wf(),
+        ensures final(self).wf(), final(self).keys == old(self).keys,
+            //#C04 C07
+            // waiting for the auth id / the rest of the header consumes nothing
+            (old(self).decode_state is Init && final(self).decode_state is Init && r is Ok) ==> (r matches Ok(None) && final(src)@ == old(src)@),
+            //#C04
+            (old(self).decode_state is Init && old(src)@.len() < 16) ==> (r matches Ok(None) && final(self).decode_state is Init),
+            //#C06 C10 C05
+            // the header is accepted only if the auth id opens, CRC-valid and within 120 s, under a registered user key, and the sealed header opens under that same key
+            (old(self).decode_state is Init && final(self).decode_state is Ready) ==> exists|i: int| 0 <= i < old(self).keys@.len()
+                && #[trigger] authid_ok(old(self).keys@[i]@, old(src)@.subrange(0, 16), vclock()) && vhdr_parse(old(self).keys@[i]@, old(src)@) is Done,
+            //#C06
+            // no item is delivered from a connection that has not passed that check
+            r matches Ok(Some(_)) ==> final(self).decode_state is Ready,
+            //#C01 C06
+            // the first item of a TCP flow carries the target address, later ones never do
+            (r matches Ok(Some(InboundIn::ConnectTcp(_, _)))) ==> (!(old(self).decode_state is Ready && old(self).connected) && final(self).connected),
+            (r matches Ok(Some(InboundIn::RelayTcp(_)))) ==> old(self).connected,
+   """, nth=0)
+I("                let auth_id = &src[0..16];\n", "                let ghost s0 = src@;\n                let ghost aid = src@.subrange(0, 16);\n", where="before")
+I("                if let Some(key) = auth_id::matching(auth_id, &self.keys)? {\n", "", where="before"); E.pop()
+I("                    if let Some(header) = encrypt__open_header(&key, src)? {\n", "                    let ghost ki = choose|i: int| 0 <= i < self.keys@.len() && self.keys@[i] == key && authid_ok(self.keys@[i]@, aid, vclock());\n", where="before")
+I("                        let data = header[..header.len() - 4].to_vec();\n", "                        proof { assert(vhdr_parse(self.keys@[ki]@, s0) is Done); }\n", where="before")
+I("                        let security = SecurityType::from(security & 0xF);\n", "                        proof { assert(padding_len <= 15) by (bit_vector) requires padding_len == security >> 4u8; }\n", where="before")
+# ================================================================ client/vmess.rs
+I("impl ClientAEADCodec {\n    fn new(header: RequestHeader) -> ", "(r: ")
+I("impl ClientAEADCodec {\n    fn new(header: RequestHeader) -> Self", """)
+        ensures r.header == header, r.body_encoder is None, r.body_decoder is None, r.wf(),
+            //#C05 C10
+            r.session.response_body_iv@ == sha256(r.session.request_body_iv@).take(16), r.session.response_body_key@ == sha256(r.session.request_body_key@).take(16),
+   """)
+I("impl ClientAEADCodec {\n    fn new(header: RequestHeader) -> ", """    spec fn wf(&self) -> bool {
+        (self.body_encoder matches Some(e) ==> e.wf()) && (self.body_decoder matches Some(d) ==> d.wf())
+    }
+    /// the plaintext request header (V2Fly VMess): version, body iv, body key, response byte, options, padding<<4|security, 0, command, address, padding, fnv1a32
+    spec fn req_prefix(&self, pad: u8) -> Seq<u8> {
+        seq![1u8] + self.session.request_body_iv@ + self.session.request_body_key@ + seq![self.session.response_header, mask_of(self.header.option@), ((pad << 4u8) | (self.header.security as u8)), 0u8, self.header.command as u8]
+    }
+""", where="before"); E.pop()
+I("impl ClientAEADCodec {\n    fn new(header: RequestHeader)", """impl ClientAEADCodec {
+    spec fn wf(&self) -> bool {
+        (self.body_encoder matches Some(e) ==> e.wf()) && (self.body_decoder matches Some(d) ==> d.wf())
+    }
+}
+""", where="before")
+a = "    fn encode(&mut self, item: BytesMut, dst: &mut BytesMut) -> "
+I(a, "(r: ")
+I(a + "Result<(), anyhow::Error>", """)
+        requires old(self).wf(),
+        ensures final(self).wf(), final(self).header == old(self).header,
+            //#C14
+            // an unrepresentable target (empty or longer than 255 bytes) is refused before anything is sent
+            (old(self).body_encoder is None && !repr_v(old(self).header.address)) ==> (r is Err && final(dst)@ == old(dst)@),
+            //#C03 C01
+            r is Ok ==> final(dst)@.len() >= old(dst)@.len() && final(dst)@.take(old(dst)@.len() as int) == old(dst)@ && final(self).body_encoder is Some,
+        decreases (if old(self).body_encoder is None { 1int } else { 0int }),
+   """)
+a = "    fn decode(&mut self, mut src: &mut BytesMut) -> "
+I(a, "(r: ")
+I(a + "Result<Option<BytesMut>, anyhow::Error>", """)
+        requires old(self).wf(),
+        ensures final(self).wf(), final(self).header == old(self).header,
+            //#C04
+            old(src)@.len() == 0 ==> r matches Ok(None),
+            //#C04 C07
+            (old(self).body_decoder is None && final(self).body_decoder is None && r is Ok) ==> (r matches Ok(None) && final(src)@ == old(src)@),
+            //#C10 C05
+            // the response is accepted only if its length and header open under the keys derived from this session's response key / iv
+            // (themselves derived from the request key / iv this client sent) and it echoes this request's response byte
+            (old(self).body_decoder is None && final(self).body_decoder is Some) ==> ({
+                let k = old(self).session.response_body_key@; let iv = old(self).session.response_body_iv@; let s = old(src)@;
+                s.len() >= 18
+                && (aead_open(0, vkdf(k, seq![lbl_resp_len_key()]).take(16), vkdf(iv, seq![lbl_resp_len_iv()]).take(12), Seq::empty(), s.subrange(0, 18)) matches Some(lb)
+                    && s.len() >= 18 + be_val(lb.take(2)) + 16
+                    && (aead_open(0, vkdf(k, seq![lbl_resp_key()]).take(16), vkdf(iv, seq![lbl_resp_iv()]).take(12), Seq::empty(), s.subrange(18, (18 + be_val(lb.take(2)) + 16) as int)) matches Some(h)
+                        && h.len() >= 1 && h[0] == old(self).session.response_header)) }),
+            //#C05 C10
+            r matches Ok(Some(_)) ==> final(self).body_decoder is Some,
+            old(self).body_decoder is Some ==> final(self).body_decoder is Some,
+        decreases (if old(self).body_decoder is None { 1int } else { 0int }),
+   """)
+I("                if src.remaining() < size_of::<u16>() + TAG_SIZE {\n", "                let ghost s0 = src@;\n", where="before")
+I("                let mut header_length_bytes = BytesMut::from(&header_length_bytes[..]);\n", "                proof { assert(header_length_bytes@ =~= s0.subrange(0, 18)); }\n")
+I("                let header_length = header_length_bytes.get_u16() as usize;\n", "                let ghost lb = header_length_bytes@;\n                proof { lemma_be_val_bound(lb.take(2)); lemma_pow256_vals(); }\n", where="before")
+I("                if cursor.remaining() < header_length + TAG_SIZE {\n", "                    proof { axiom_cursor_dropped(&cursor); }\n")
+I("                header_cipher.decrypt_in_place(&header_iv.into(), &[], &mut header_bytes).map_err(|e| verif_err())?;\n", "                proof { assert(header_bytes@ =~= s0.subrange(18, 18 + header_length + 16)); }\n", where="before")
+# udp helpers
+I("fn vcli__new_key(sender: SocketAddr, target: &Address) -> ", "(r: ")
+I("fn vcli__new_key(sender: SocketAddr, target: &Address) -> (SocketAddr, Address)", ")\n    ensures\n        //#C02\n        r.0 == sender, r.1 == *target,\n")
+I("fn vcli__to_outbound_send(item: DatagramPacket, verif_arg2: SocketAddr) -> ", "(r: ")
+I("fn vcli__to_outbound_send(item: DatagramPacket, verif_arg2: SocketAddr) -> BytesMut", ")\n    ensures\n        //#C02\n        r == item.0,\n")
+I("fn vcli__to_inbound_recv(item: BytesMut, recipient: &Address, sender: SocketAddr) -> ", "(r: ")
+I("fn vcli__to_inbound_recv(item: BytesMut, recipient: &Address, sender: SocketAddr) -> (DatagramPacket, SocketAddr)", ")\n    ensures\n        //#C02\n        r.0.0 == item, r.0.1 == *recipient, r.1 == sender,\n")
 # apply
 def find_nth(s, sub, n):
     i = -1
